@@ -3,7 +3,7 @@
 # compiles, affected packages' existing tests pass, demo fails with the change and passes without it.
 set -u
 id=$1
-out=/tmp/mut/$id.out
+out=${MUTDIR:-/tmp/mut}/$id${MUTSUFFIX-.out}
 wt=/tmp/ver_$id
 export GOFLAGS=-mod=mod GOPROXY=off GORDIAN_TEST_TIME_FACTOR=10
 git -C /repo worktree add -q --detach $wt HEAD || exit 2
